@@ -38,6 +38,8 @@ type c03H2Scenario struct {
 	lastAt   bool   // GOAWAY last-stream-id = this stream (else 0, below it)
 	finish   bool   // after GOAWAY(last = this stream): still send the rest with END_STREAM
 	retryOK  bool   // the client may legitimately have replayed the request (unprocessed stream)
+	interim  int    // informational (103) HEADERS in front of the final response
+	late     bool   // the surplus bytes go out in a later DATA frame, after the client drained the body
 }
 
 type c03H2Peer struct {
@@ -139,6 +141,12 @@ func (p *c03H2Peer) serve(c net.Conn) {
 				wmu.Unlock()
 				return
 			}
+			for j := 0; j < sc.interim; j++ {
+				hbuf.Reset()
+				enc.WriteField(hpack.HeaderField{Name: ":status", Value: "103"})
+				enc.WriteField(hpack.HeaderField{Name: "link", Value: "</s.css>; rel=preload"})
+				fr.WriteHeaders(xhttp2.HeadersFrameParam{StreamID: id, BlockFragment: hbuf.Bytes(), EndHeaders: true})
+			}
 			hbuf.Reset()
 			st := sc.status
 			if st == 0 {
@@ -152,7 +160,9 @@ func (p *c03H2Peer) serve(c net.Conn) {
 			fr.WriteHeaders(xhttp2.HeadersFrameParam{StreamID: id, BlockFragment: hbuf.Bytes(), EndHeaders: true,
 				EndStream: (sc.ending == "end-stream" || sc.ending == "end-stream-then-rst") && sc.send+sc.extra == 0})
 			payload := []byte(sc.body)[:sc.send]
-			payload = append(payload, bytes.Repeat([]byte("X"), sc.extra)...)
+			if !sc.late {
+				payload = append(payload, bytes.Repeat([]byte("X"), sc.extra)...)
+			}
 			n := sc.frames
 			if n < 1 {
 				n = 1
@@ -171,8 +181,15 @@ func (p *c03H2Peer) serve(c net.Conn) {
 					wmu.Unlock()
 					return
 				}
-				fr.WriteData(id, (sc.ending == "end-stream" || sc.ending == "end-stream-then-rst") && last, payload[:k])
+				fr.WriteData(id, (sc.ending == "end-stream" || sc.ending == "end-stream-then-rst") && last && !sc.late, payload[:k])
 				payload = payload[k:]
+			}
+			if sc.late {
+				// let the client consume exactly the declared bytes first
+				wmu.Unlock()
+				time.Sleep(40 * time.Millisecond)
+				wmu.Lock()
+				fr.WriteData(id, true, bytes.Repeat([]byte("X"), sc.extra))
 			}
 			switch sc.ending {
 			case "rst":
@@ -218,7 +235,8 @@ func TestVerif_C03_h2cut(t *testing.T) {
 	reached := map[string]int{}
 	failures := 0
 	tmpDir := t.TempDir()
-	rstSeq, goSeq := 0, 0
+	rstSeq, goSeq, overSeq := 0, 0, 0
+	perName := map[string]int{}
 	for i := 0; i < n && failures < 12; i++ {
 		body := verifh.RandBytes(r, 1+r.Intn(300), "abcdefghijklmnopqrstuvwxyz")
 		sc := c03H2Scenario{body: body, declared: len(body), send: len(body), frames: 1 + r.Intn(4), ending: "end-stream", complete: true}
@@ -271,12 +289,27 @@ func TestVerif_C03_h2cut(t *testing.T) {
 			sc.name, sc.declared, sc.send, sc.complete = "short-end-stream", len(body), r.Intn(len(body)), false
 		case 10: // more DATA than declared
 			sc.name, sc.declared, sc.extra, sc.complete = "overlong", len(body), 1+r.Intn(20), false
+			switch overSeq % 4 {
+			case 1: // the surplus arrives in a later DATA frame, after the declared bytes were consumed
+				sc.name, sc.late = "overlong-late-frame", true
+			case 2: // declared length = the first read buffer of io.ReadAll (512), surplus in the same frame
+				body = verifh.RandBytes(r, verifh.Pick(r, []int{512, 512, 1024}), "abcdefghijklmnopqrstuvwxyz")
+				sc.name, sc.body, sc.declared, sc.send, sc.frames = "overlong-at-read-buffer", body, len(body), len(body), 1
+			case 3: // content-length: 0, HEADERS without END_STREAM, then DATA
+				sc.name, sc.declared, sc.send, sc.late = "overlong-zero-length", 0, 0, r.Intn(2) == 0
+			}
+			overSeq++
 		case 11:
 			sc.name, sc.ending, sc.complete = "close-before-headers", "close-before-headers", false
 		case 12: // complete body but the stream is reset (any code) instead of END_STREAM
 			sc.name, sc.ending, sc.complete, sc.code = "rst-after-full-body", "rst", false, verifh.Pick(r, []uint32{0, 0, 2, 8})
 		case 13: // control: END_STREAM, THEN RST_STREAM(NO_ERROR) (RFC 9113 8.1: "stop uploading")
 			sc.name, sc.ending, sc.code = "rst-noerror-after-end-stream", "end-stream-then-rst", 0
+		}
+		perName[sc.name]++
+		if perName[sc.name]%4 == 1 {
+			sc.interim = 1 + r.Intn(2)
+			s.Count("interim-1xx")
 		}
 		peer.reset([]c03H2Scenario{sc})
 		c := C().EnableForceHTTP2().EnableH2C().SetTimeout(10 * time.Second)
@@ -353,7 +386,7 @@ func TestVerif_C03_h2cut(t *testing.T) {
 	if failures >= 12 {
 		return
 	}
-	for _, need := range []string{"ok", "fail", "complete", "complete-head-with-length", "rst-code-0", "rst-code-8", "goaway-code-0-last-at", "goaway-code-0-last-below", "goaway-graceful-complete", "rst-noerror-after-end-stream", "tcp-close", "midframe", "short-end-stream", "overlong", "close-before-headers"} {
+	for _, need := range []string{"ok", "fail", "complete", "complete-head-with-length", "rst-code-0", "rst-code-8", "goaway-code-0-last-at", "goaway-code-0-last-below", "goaway-graceful-complete", "rst-noerror-after-end-stream", "tcp-close", "midframe", "short-end-stream", "overlong", "overlong-late-frame", "overlong-at-read-buffer", "overlong-zero-length", "close-before-headers"} {
 		if reached[need] == 0 {
 			t.Errorf("C03/h2cut never reached %q", need)
 		}
